@@ -20,6 +20,7 @@ THEOREMS = [
     "C08.shift_ok", "C08.shift_paths_gen", "C08.shift_paths", "C08.shift_keeps_ids", "C08.shift_frame",
     "C08.delete_children_paths", "C08.overriding_paths", "C08.merge_children_paths", "C08.merge_leaves_paths",
     "C08.replace_keeps_position", "C08.replace_later_sibling_observation",
+    "C08.replace_pairs_fold", "C08.replace_source_untouched",
     "Modify.FromOK.full", "Modify.FromOK.partial",
     "C08.copy_ok", "C08.copy_paths", "C08.copy_fresh_ids", "C08.copy_origin_untouched",
     "C08.source_untouched", "C08.t2t_copy", "C08.delete_paths",
@@ -42,7 +43,8 @@ RULE = ("five public functions x all 2^6 flag combinations x 1-3 (from,to) pairs
 EXHAUSTIVE = {
     "quick": "all ordered tree shapes with <= 4 nodes (child k of every node is named by the k-th letter, so paths repeat "
              "across branches) x every non-root from-node x every destination parent (existing node, or existing node + "
-             "one missing intermediate) + delete x all 64 flag combinations x {shift_nodes, copy_nodes}, full from-paths",
+             "one missing intermediate) + delete x all 64 flag combinations x {shift_nodes, copy_nodes}, full from-paths "
+             "(the 16 combinations with both merge flags are refused before any path is looked at: one destination each)",
     "thorough": "same with <= 5 nodes",
 }
 MODELLED = [
@@ -856,6 +858,8 @@ def exhaustive(nmax):
                     cands = list(tos)
                     if not fl[MC] and not fl[ML] and fn == "shift":
                         cands.append(None)
+                    if fl[MC] and fl[ML]:
+                        cands = cands[:1]   # refused (ValueError) before any path is looked at
                     for tc in cands:
                         d = {"fn": fn, "dst": spec, "src": None, "dsep": "/", "ssep": "/", "sep": "/", "flags": fl,
                              "from": [pstr(fcomps, "/")], "to": [None if tc is None else pstr(tc, "/")]}
